@@ -275,6 +275,19 @@ def cases(draw):
             "fire": draw(st.integers(0, 3)) == 0 and driver in ("data_frame", "data") and not illegal, "skip": draw(st.integers(0, 4)) == 0 and driver not in rx.RECVS and not illegal}
 
 
+def long_quiet_cases():
+    """An idle connection kept alive by heartbeats: thousands of frames the receive call does not report, then a message.
+    Delivered in one piece, or with a timeout now and then - the message arrives either way."""
+    for n in (1500, 3000):
+        beats = [{"fin": 1, "op": rm.PONG if i % 2 else rm.PING, "p": bytes([65 + i % 7]) * (i % 4)} for i in range(n)]
+        specs = [{"fin": 0, "op": rm.TEXT, "p": b"be"}] + beats + [{"fin": 1, "op": rm.CONT, "p": b"at"}, {"fin": 1, "op": rm.BINARY, "p": b"\x01"}]
+        wire, frames, ends = rx.wire_of(specs)
+        for driver, cf in (("recv", False), ("data", False), ("data_frame", False), ("iter", False)):
+            yield {"frames": specs, "cuts": [], "timeouts": [], "driver": driver, "cf": cf, "via": "direct", "stream": f"quiet{n}"}
+            cuts = ends[99:-1:400]
+            yield {"frames": specs, "cuts": cuts, "timeouts": [[i, 1, i % 3] for i in range(1, len(cuts) + 1)], "driver": driver, "cf": cf, "via": "direct", "stream": f"quiet{n}"}
+
+
 def jobs(tier, seed):
     W = 12 if tier == "quick" else 16
     n, shards = (2400, 8) if tier == "quick" else (144000, 16)
@@ -297,6 +310,8 @@ def run_job(job, coll):
                 coll.check(c, run_case)
     elif job["kind"] == "tpos":
         for c in timeout_cases():
+            coll.check(c, run_case)
+        for c in long_quiet_cases():
             coll.check(c, run_case)
         coll.exhaustive["a receive timeout at every byte position of the first 48 bytes of each short stream"] = True
     else:
